@@ -10,8 +10,8 @@ set_option autoImplicit false
 namespace WinSpec
 
 inductive Ev where
-  | arr (id : Nat) (ts : Option Int)                       -- a row was ingested (`none`: no usable timestamp)
-  | emit (late : Bool) (start stop : Int) (ids : List Nat) -- a result was delivered (late = re-delivery caused by a late row)
+  | arr (id : Nat) (ts : Option Int) (grp : Nat := 0)      -- a row was ingested (`none`: no usable timestamp); `grp` = its GROUP BY key
+  | emit (late : Bool) (start stop : Int) (ids : List Nat) (grp : Nat := 0) -- a result (of group `grp`) was delivered (late = re-delivery caused by a late row)
   deriving Repr, DecidableEq
 
 structure Cfg where
@@ -30,12 +30,14 @@ structure Seen where
   onTime : Bool      -- not late on arrival: ts ≥ (largest valid ts seen so far, itself included) − ooo
   corrupt : Bool     -- beyond the far-future guard
   wmAtArrival : Option Int := none   -- the watermark right after this arrival
+  grp : Nat := 0
   deriving Repr
 
 structure Scan where
   seen : List Seen := []
   maxTs : Option Int := none          -- largest valid timestamp seen so far
-  firsts : List (Int × Int × List Nat) := []   -- delivered intervals so far (start, stop, current ids), in order
+  firsts : List (Int × Int × List Nat) := []   -- delivered intervals so far (start, stop, current ids), in order (all groups)
+  firstGrp : List Nat := []                    -- group of each entry of `firsts`
   expect : Option (Int × Int × Nat) := none    -- a late row inside the allowance of a delivered interval: the next event must be its re-delivery
   err : Option String := none
   deriving Repr
@@ -48,31 +50,31 @@ def maxOpt (o : Option Int) (x : Int) : Int := match o with | none => x | some y
 
 def fail (s : Scan) (m : String) : Scan := if s.err.isSome then s else { s with err := some m }
 
-def stepArr (c : Cfg) (s : Scan) (id : Nat) (ts : Int) : Scan :=
+def stepArr (c : Cfg) (s : Scan) (id : Nat) (ts : Int) (g : Nat := 0) : Scan :=
   if c.now + c.ooo + c.slack < ts then
-    { s with seen := s.seen ++ [{ id := id, ts := ts, onTime := true, corrupt := true, wmAtArrival := s.maxTs.map (· - c.ooo) }] }
+    { s with seen := s.seen ++ [{ id := id, ts := ts, onTime := true, corrupt := true, wmAtArrival := s.maxTs.map (· - c.ooo), grp := g }] }
   else
     { s with maxTs := some (maxOpt s.maxTs ts),
              seen := s.seen ++ [{ id := id, ts := ts, onTime := decide (maxOpt s.maxTs ts - c.ooo ≤ ts), corrupt := false,
-                                  wmAtArrival := some (maxOpt s.maxTs ts - c.ooo) }] }
+                                  wmAtArrival := some (maxOpt s.maxTs ts - c.ooo), grp := g }] }
 
 def lookup (s : Scan) (id : Nat) : Option Seen := s.seen.find? (·.id = id)
 
 /-- clauses checked when a first firing `[start, stop)` with `ids` is delivered -/
-def checkFirst (c : Cfg) (s : Scan) (start stop : Int) (ids : List Nat) : Scan :=
+def checkFirst (c : Cfg) (s : Scan) (start stop : Int) (ids : List Nat) (g : Nat := 0) : Scan :=
   let s1 := if stop = start + c.size then s else fail s "interval-length"
   let s2 := if start % c.slide = 0 then s1 else fail s1 "interval-not-aligned"
   -- every reported row arrived before and lies inside the interval
   let s3 := if ids.all (fun i => match lookup s i with
-              | some r => decide (start ≤ r.ts) && decide (r.ts < stop)
+              | some r => decide (start ≤ r.ts) && decide (r.ts < stop) && r.grp == g
               | none => false) then s2 else fail s2 "row-outside-its-interval"
   let s4 := if ids.eraseDups.length = ids.length then s3 else fail s3 "row-twice-in-one-result"
   -- every on-time row of the interval that has arrived is reported
-  let s5 := if s.seen.all (fun r => !(r.onTime && !r.corrupt && decide (start ≤ r.ts) && decide (r.ts < stop)) || ids.contains r.id)
+  let s5 := if s.seen.all (fun r => !(r.onTime && !r.corrupt && r.grp == g && decide (start ≤ r.ts) && decide (r.ts < stop)) || ids.contains r.id)
             then s4 else fail s4 "on-time-row-missing-from-its-interval"
   -- first firings are strictly increasing, hence no interval twice
-  let s6 := match s.firsts.getLast? with
-            | some (ps, _, _) => if ps < start then s5 else fail s5 "intervals-not-increasing"
+  let s6 := match ((s.firsts.zip s.firstGrp).filter (fun p => p.2 == g)).getLast? with
+            | some ((ps, _, _), _) => if ps < start then s5 else fail s5 "intervals-not-increasing"
             | none => s5
   -- never before the watermark passed the end
   let s7 := match wmOf c s with
@@ -82,7 +84,7 @@ def checkFirst (c : Cfg) (s : Scan) (start stop : Int) (ids : List Nat) : Scan :
   let s8 := match (s.seen.filter (fun r => r.onTime && !r.corrupt)).map (·.ts) |>.min? with
             | some m => if alignDown m c.slide ≤ start then s7 else fail s7 "interval-before-earliest-event"
             | none => s7
-  { s8 with firsts := s8.firsts ++ [(start, stop, ids)] }
+  { s8 with firsts := s8.firsts ++ [(start, stop, ids)], firstGrp := s8.firstGrp ++ [g] }
 
 /-- a late re-delivery: same interval as an earlier delivery, contents = what was delivered for
 that interval before plus exactly one new row, which is late, lies in the interval, and arrived
@@ -120,12 +122,12 @@ def expectation (c : Cfg) (s : Scan) (id : Nat) (ts : Int) : Option (Int × Int 
   | none => none
 
 def stepCore (c : Cfg) (s : Scan) : Ev → Scan
-  | .arr _ none => s
-  | .arr id (some ts) =>
-    let s1 := stepArr c s id ts
+  | .arr _ none _ => s
+  | .arr id (some ts) g =>
+    let s1 := stepArr c s id ts g
     { s1 with expect := expectation c s1 id ts }
-  | .emit false a b ids => checkFirst c s a b ids
-  | .emit true a b ids => checkLate c s a b ids
+  | .emit false a b ids g => checkFirst c s a b ids g
+  | .emit true a b ids _ => checkLate c s a b ids
 
 def step (c : Cfg) (s : Scan) (e : Ev) : Scan :=
   match s.expect with
@@ -133,7 +135,7 @@ def step (c : Cfg) (s : Scan) (e : Ev) : Scan :=
   | some (a, b, id) =>
     let s0 := { s with expect := none }
     match e with
-    | .emit true a' b' ids => if a' = a ∧ b' = b ∧ ids.contains id then stepCore c s0 e
+    | .emit true a' b' ids _ => if a' = a ∧ b' = b ∧ ids.contains id then stepCore c s0 e
                               else stepCore c (fail s0 "late-row-inside-allowance-not-redelivered") e
     | _ => stepCore c (fail s0 "late-row-inside-allowance-not-redelivered") e
 
@@ -159,7 +161,7 @@ def complete (c : Cfg) (s : Scan) : Option String :=
     let missing := s.seen.filter fun r =>
       r.onTime && !r.corrupt && (coverStarts c r.ts).any fun st =>
         decide (lo ≤ st) && decide (st + c.size ≤ w) &&
-          !(s.firsts.any fun f => f.1 = st && f.2.2.contains r.id)
+          !((s.firsts.zip s.firstGrp).any fun f => f.1.1 = st && f.2 == r.grp && f.1.2.2.contains r.id)
     match missing with
     | [] => none
     | r :: _ => some s!"on-time-row-never-reported id={r.id}"
